@@ -145,10 +145,43 @@ def oracle_functional(ck, name, dim, shape):
     return None
 
 
+def oracle_long(ck, name, J, N):
+    """very long signals (no operator matrix): critically sampled, energy preserved, inverse(g) == backprop(g), == PyWavelets"""
+    import pywt
+    w = pywt.Wavelet(name)
+    fwd, _ = modules(1, 2, J, (np.array(w.dec_lo), np.array(w.dec_hi)))
+    _, inv = modules(1, 2, J, (np.array(w.rec_lo), np.array(w.rec_hi)))
+    desc = '1D orthogonality %s periodization J=%d long signal N=%d' % (name, J, N)
+    replay = {'oracle': 'long', 'name': name, 'J': J, 'N': N}
+    xn = gen.float_tensor(ck.nprng, (1, 2, N))
+    x = T(xn).requires_grad_(True)
+    yl, yh = fwd(x)
+    outs = [yl] + list(yh)
+    if sum(int(t.shape[-1]) for t in outs) != N:
+        ck.fail(desc + ': %d coefficients per channel for %d samples (not a change of basis)' % (sum(int(t.shape[-1]) for t in outs), N), replay); return 'shape'
+    en = float(sum((t ** 2).sum() for t in outs)); ex = float((x ** 2).sum())
+    if abs(en - ex) > 1e-9 * max(1.0, ex):
+        ck.fail(desc + ': energy %.12g vs %.12g' % (en, ex), replay); return 'energy'
+    ref = pywt.wavedec(xn, w, mode='periodization', level=J, axis=-1)
+    if float(np.abs(ref[0] - yl.detach().numpy()).max()) > 1e-9 * max(1.0, float(np.abs(ref[0]).max())):
+        ck.fail(desc + ': low-pass differs from pywt.wavedec', replay); return 'pywt'
+    cots = [T(gen.float_tensor(ck.nprng, tuple(t.shape))) for t in outs]
+    (g,) = torch.autograd.grad(outs, x, cots)
+    with torch.no_grad():
+        s_ = inv((cots[0], cots[1:]))
+    if tuple(s_.shape) != tuple(g.shape) or float((g - s_).abs().max()) > 1e-9 * max(1.0, float(s_.abs().max())):
+        ck.fail(desc + ': inverse(g) (shape %s) differs from backprop(g) (shape %s)' % (tuple(s_.shape), tuple(g.shape)), replay); return 'transpose'
+    ck.oracle_ok(('long', name, J, N), group='orth1d', sample={'wavelet': name, 'J': J, 'N': N, 'energy_defect': abs(en - ex)})
+    return None
+
+
 def oracle(ck, extended):
     rng = ck.rng
     import pywt
     q = ck.tier == 'quick'
+    # the long end of the size range (audio-length signals, not powers of two)
+    for (name_, J_, N_) in [('db2', 2, 100000), ('haar', 1, 98304)] + ([] if q else [('sym4', 3, 163840), ('db3', 1, 65538), ('coif1', 2, 262148)]):
+        rt.guard(ck, oracle_long, ck, name_, J_, N_)
     for name_ in ['haar', 'db3', 'sym4', 'coif2']:
         rt.guard(ck, oracle_functional, ck, name_, 3, (2, 3, 1, 16))
         rt.guard(ck, oracle_functional, ck, name_, 2, (1, 2, 18, 1))
@@ -195,6 +228,8 @@ def replay(ck, path):
         oracle_orth(ck, f['dims'], f['J'], f['name'], tuple(f['shape']))
     elif f['oracle'] == 'functional':
         oracle_functional(ck, f['name'], f['dim'], tuple(f['shape']))
+    elif f['oracle'] == 'long':
+        oracle_long(ck, f['name'], f['J'], f['N'])
     else:
         oracle_transpose_exact(ck, f['J'], f['L'], f['N'])
     for fl in ck.failures:
